@@ -172,6 +172,22 @@ template <class A, class C> void run_int_seq(vf::Ctx& c, int archId, const char*
 	if (got.size() != n) c.fail("a sequence changed its length because an element was skipped", d);
 	for (size_t i = 0; i < n; i++) { if (off[i] ? got[i] != -424242 : got[i] != clean[i]) c.fail(off[i] ? "the target of a skipped value was modified" : "a value that was not offended is loaded differently (neighbour disturbed)", vf::cat("element ", i, " | ", d)); }
 }
+// arrays longer than the 4096-element cap of the size estimate: elements behind the cap are appended one by one; a skipped one must still
+// occupy its position (it keeps the sentinel or is value-initialised), the length is unchanged and the neighbours are loaded
+template <class A, class C> void run_long_seq(vf::Ctx& c, int archId, const char* name) {
+	const size_t n = 4090 + c.src.draw(20); std::vector<int64_t> clean(n); for (size_t i = 0; i < n; i++) clean[i] = -5 - static_cast<int64_t>(i);
+	std::vector<Val> doc; std::vector<bool> off(n, false); for (size_t i = 0; i < n; i++) doc.push_back(refmp::mkInt(clean[i]));
+	for (size_t k = 1 + c.src.draw(3); k > 0; k--) { const size_t i = c.src.chance(3, 4) ? std::min(n - 1, static_cast<size_t>(4090 + c.src.draw(16))) : c.src.draw(n); off[i] = true; doc[i] = offending_value(c.src, RT::Int, archId); }
+	std::string bytes; Cfg mem; Outcome so = dyn::save<A>(refmp::mkArr(doc), bytes, mem); if (!so.ok()) c.fail("saving the document failed", so.str());
+	Cfg cfg; cfg.stream = c.src.coin(); cfg.opt.mismatchedTypesPolicy = MismatchedTypesPolicy::Skip; cfg.opt.overflowNumberPolicy = OverflowNumberPolicy::Skip;
+	std::string offs; for (size_t i = 0; i < n; i++) if (off[i]) offs += std::to_string(i) + " "; c.nontrivial = true; c.describe(vf::cat(arch_name(archId), " long ", name, " n=", n, " offended at ", offs, "stream=", cfg.stream));
+	C target; if (c.src.coin()) target.assign(c.src.draw(3) == 0 ? n : c.src.draw(10), -424242);
+	Outcome lo = load<A>(target, bytes, cfg); const std::vector<int64_t> got(target.begin(), target.end());
+	const std::string d = vf::cat(arch_name(archId), " long ", name, " n=", n, " offended at ", offs, "stream=", cfg.stream, " => ", lo.str(), " loaded size=", got.size());
+	if (!lo.ok()) c.fail("loading with the Skip policies ended in an exception", d);
+	if (got.size() != n) c.fail("a sequence changed its length because an element was skipped", d);
+	for (size_t i = 0; i < n; i++) { if (off[i] ? (got[i] != -424242 && got[i] != 0) : got[i] != clean[i]) c.fail(off[i] ? "the target of a skipped value was modified" : "a value that was not offended is loaded differently (neighbour disturbed)", vf::cat("element ", i, " = ", got[i], " | ", d)); }
+}
 template <class A> void run_tuple(vf::Ctx& c, int archId) {
 	using Tup = std::tuple<int64_t, std::string, double, int64_t, bool>; const bool typed = archId == MSGPACK || archId == JSON;
 	const Tup clean{ -5 - static_cast<int64_t>(c.src.draw(1000)), "text" + std::to_string(c.src.draw(100)), 0.25 + static_cast<double>(c.src.draw(100)), -7 - static_cast<int64_t>(c.src.draw(1000)), true };
@@ -200,6 +216,10 @@ template <class A> void run_typed_seq(vf::Ctx& c, int archId) {
 
 VF_PROPERTY(skip_typed_sequences_msgpack, 3, "typed std sequences (vector, deque, list, array<5> of int64) and tuple<int64,string,double,int64,bool> pre-filled with sentinels and loaded with the Skip policies from an array in which any subset of elements is replaced by a mismatching / out-of-range value: offended elements keep their sentinel, all others are loaded, the length is unchanged; memory and streams; non-trivial = an offended element is followed by another element") { run_typed_seq<MsgPackArchive>(c, MSGPACK); }
 VF_PROPERTY(skip_typed_sequences_json, 3, "same through JSON") { run_typed_seq<JsonArchive>(c, JSON); }
+VF_PROPERTY(skip_long_sequences, 1, "arrays of 4090..4109 integers (around the 4096-element cap of the size estimate) with 1..3 offences near the cap, loaded with the Skip policies through MessagePack and JSON into an empty, short or full vector / deque / list: length unchanged, neighbours loaded, the skipped position holds its previous or a value-initialised element; non-trivial = always") {
+	const bool mp = c.src.coin();
+	switch (c.src.draw(3)) { case 0: if (mp) run_long_seq<MsgPackArchive, std::vector<int64_t>>(c, MSGPACK, "vector"); else run_long_seq<JsonArchive, std::vector<int64_t>>(c, JSON, "vector"); break; case 1: if (mp) run_long_seq<MsgPackArchive, std::deque<int64_t>>(c, MSGPACK, "deque"); else run_long_seq<JsonArchive, std::deque<int64_t>>(c, JSON, "deque"); break; default: if (mp) run_long_seq<MsgPackArchive, std::list<int64_t>>(c, MSGPACK, "list"); else run_long_seq<JsonArchive, std::list<int64_t>>(c, JSON, "list"); }
+}
 VF_PROPERTY(skip_typed_sequences_xml, 2, "same through XML (the sequence is the member 'seq' of the root)") { run_typed_seq<XmlArchive>(c, XML); }
 VF_PROPERTY(skip_dyn_msgpack, 5, "arbitrary tree (depth <= 3: arrays of scalars, arrays of objects, objects holding arrays, byte containers) with 1..6 values at any depth replaced by a certainly mismatching value (other scalar kind, string, array, object, out-of-range number), loaded with both Skip policies from memory and streams into a sentinel-filled target of the clean shape, followed by an envelope sentinel; non-trivial = an offence is followed by more data in the same array/object") { run_dyn<MsgPackArchive>(c, MSGPACK); }
 VF_PROPERTY(skip_dyn_json, 4, "same through JSON") { run_dyn<JsonArchive>(c, JSON); }
